@@ -1,3 +1,478 @@
 import LocustModel.Proto
-/- Driver stub for C17 (replaced when the property's model is built). -/
-def main : IO Unit := LM.Proto.runDriver fun _ => "?\t?"
+import LocustModel.Wire.ResponseSpec
+/-
+  Driver for C17.  Input line:  `<kind> <inputs…> :: <implementation output>`
+
+    enc <xor 0|1> <mantissa|_> <col>                          encode_column → wire → client, one column
+    jcols <names> <name>=<col>…                               query_output_to_json_cols
+    status <Variant|Ok>                                       map_err_response
+    e2e query rows <names> <rows>                             /query            (embedded result in row format)
+    e2e query_cols cols <names> <name>=<col>…                 /query_cols
+    e2e mjson <k> cols … ;; cols …                            /multi_query_cols, JSON
+    e2e mbin|mclient <k> <xor> <mantissa|_> <fp names> cols … ;; cols …     /multi_query_cols, capnp
+    e2e <endpoint> err <Variant>                              a failing query: `<status|dropped> next:<status>`
+    e2e <endpoint> emb:<panic|hang>                           the embedded call itself did not return a value
+    e2e insert | next | clientflush | malformed <ep> | start  bookkeeping requests
+
+  col   = I:<ints> | F:<16-hex,…> | S:<x…,…> | N:<n> | M:<cells>      cells: _ | i<int> | f<16 hex> | x<hex>
+  names = comma separated x<hex> | []
+  Output:  <model prediction of the implementation output> TAB <OK | BAD … | SKIP …> [TAB <known finding id>]
+-/
+namespace LM.DrvC17
+open LM LM.Proto LM.Wire.Response LM.Gen.Status
+
+def splitImpl (line : String) : String × String :=
+  match line.trimAscii.toString.splitOn " :: " with
+  | [a] => (a, "")
+  | a :: rest => (a, " :: ".intercalate rest)
+  | [] => ("", "")
+
+def splitFirst (s : String) (sep : String) : Option (String × String) :=
+  match s.splitOn sep with
+  | a :: b :: rest => some (a, sep.intercalate (b :: rest))
+  | _ => none
+
+def hexNat? (s : String) : Option Nat :=
+  if s.isEmpty then none else
+  s.toList.foldlM (fun acc c => (hexDigit? c).map (acc * 16 + ·)) 0
+
+def hex16 (n : Nat) : String :=
+  String.ofList ((List.range 16).map fun i => hexChar ((n >>> (4 * (15 - i))) % 16))
+
+def showBytes (bs : List Nat) : String :=
+  "x" ++ String.ofList (bs.flatMap fun b => [hexChar (b / 16), hexChar (b % 16)])
+
+def parseVal? (s : String) : Option Val :=
+  match s.toList with
+  | ['_'] => some .null
+  | 'i' :: r => (String.ofList r).toInt?.map .int
+  | 'f' :: r => (hexNat? (String.ofList r)).map .float
+  | 'x' :: _ => some (.str s)
+  | _ => none
+
+def showVal : Val → String
+  | .null => "_"
+  | .int i => s!"i{i}"
+  | .float b => "f" ++ hex16 b
+  | .str s => s
+
+def parseBCol? (s : String) : Option BCol := do
+  let (k, d) ← splitFirst s ":"
+  match k with
+  | "I" => (parseList parseInt? d).map .int
+  | "F" => (parseList hexNat? d).map .float
+  | "S" => (parseList (fun x => some x) d).map .str
+  | "N" => d.toNat?.map .null
+  | "M" => (parseList parseVal? d).map .mixed
+  | _ => none
+
+def showW : WCol → String
+  | .float xs => "float:" ++ showList hex16 xs
+  | .int xs => "int:" ++ showList showInt xs
+  | .str xs => "str:" ++ showList id xs
+  | .mixed xs => "mixed:" ++ showList showVal xs
+  | .null n => s!"null:{n}"
+  | .xor b => "xor:" ++ showBytes b
+
+def parseWCol? (s : String) : Option WCol := do
+  let (k, d) ← splitFirst s ":"
+  match k with
+  | "float" => (parseList hexNat? d).map .float
+  | "int" => (parseList parseInt? d).map .int
+  | "str" => (parseList (fun x => some x) d).map .str
+  | "mixed" => (parseList parseVal? d).map .mixed
+  | "null" => d.toNat?.map .null
+  | _ => none
+
+def parseNamed? (s : String) : Option (String × BCol) := do
+  let (n, c) ← splitFirst s "="
+  let c ← parseBCol? c
+  pure (n, c)
+
+def parseNames? (s : String) : Option (List String) := parseList (fun x => some x) s
+
+def parseNamedList? (toks : List String) : Option (List (String × BCol)) :=
+  if toks = ["[]"] then some [] else toks.mapM parseNamed?
+
+def insertSorted (e : String × α) : List (String × α) → List (String × α)
+  | [] => [e]
+  | x :: xs => if e.1 < x.1 then e :: x :: xs else x :: insertSorted e xs
+
+def sortByName (l : List (String × α)) : List (String × α) := l.foldr insertSorted []
+
+def parseOptsMant? (s : String) : Option (Option Nat) := parseOpt parseNat? s
+
+/-! ### decidable forms of the specification -/
+
+def zipAll (p : α → β → Bool) : List α → List β → Bool
+  | [], [] => true
+  | a :: as, b :: bs => p a b && zipAll p as bs
+  | _, _ => false
+
+/-- `Zip2 (CellKeeps mask) ys xs`, decided. -/
+def cellsAgree (mask : Nat) (ys xs : List Val) : Bool := zipAll (fun y x => decide (CellKeeps mask y x)) ys xs
+
+/-- `ConsistentNames`, decided. -/
+def consistentB (cols : List (String × BCol)) : Bool :=
+  cols.all fun a => cols.all fun b => a.1 != b.1 || a.2 == b.2
+
+def dupId (cols : List (String × BCol)) : String := if consistentB cols then "" else "http-cols-duplicate-names"
+
+/-- Adjacent differences of an integer column. -/
+def adjDiffs : List Int → List Int
+  | a :: b :: rest => (b - a) :: adjDiffs (b :: rest)
+  | _ => []
+
+/-- Classifier of the open finding `api-delta-i64-overflow` (C16): an adjacent difference does not fit i64. -/
+def diffOverflowsB (xs : List Int) : Bool := (adjDiffs xs).any fun d => !decide (inI64 d)
+
+/-- Classifier of the open finding `api-range-decode-mul-overflow` (C16): constant step `s` (Range layout) and
+    `(len-1)·s` outside i64. -/
+def rangeMulOverflowsB (xs : List Int) : Bool :=
+  match adjDiffs xs with
+  | [] => false
+  | s :: ds => ds.all (· == s) && decide (inI64 s) && !decide (inI64 (((xs.length : Int) - 1) * s))
+
+def intsOf : WCol → List Int
+  | .int xs => xs
+  | _ => []
+
+/-- Findings of the integer layouts (C16), while they are open: evaluated on the integer columns of the response. -/
+def intsId (ws : List WCol) : String :=
+  if ws.any (fun w => diffOverflowsB (intsOf w)) then "api-delta-i64-overflow"
+  else if ws.any (fun w => rangeMulOverflowsB (intsOf w)) then "api-range-decode-mul-overflow"
+  else ""
+
+def withKnown (model spec known : String) : String :=
+  model ++ "\t" ++ spec ++ (if known = "" || !(spec.startsWith "BAD") then "" else "\t" ++ known)
+
+/-! ### enc -/
+
+def showOutcome : Outcome → String
+  | .ok c => showW c
+  | .serverPanic => "panic-ser"
+  | .clientPanic => "panic-de"
+
+def deliverShow (w : WCol) : String :=
+  match transmit w with
+  | .serverPanic => "panic-ser"
+  | .clientPanic => "panic-de"
+  | .ok c =>
+    match clientDecode c with
+    | .ok c' => showW c'
+    | .error _ => "panic-client"
+
+def encModel (col : BCol) (o : Opts) : String :=
+  match encodeColumn col o with
+  | .error _ => "panic"
+  | .ok w => showW w ++ " => " ++ deliverShow w
+
+/-- The client's column must show the specified view under the mask in effect. -/
+def judgeBinCol (o : Opts) (col : BCol) (client : String) : String :=
+  match parseWCol? client with
+  | none => "BAD the client did not obtain a column: " ++ client.take 40
+  | some c =>
+    match c.cells with
+    | none => "BAD column still compressed"
+    | some ys =>
+      if cellsAgree (effMask o) ys (specView col) then "OK"
+      else s!"BAD client cells {(showList showVal ys).take 80} expected {(showList showVal (specView col)).take 80}"
+
+def assertDomain (col : BCol) (o : Opts) : Bool :=
+  o.xor && LM.Wire.XorFloat.mantissaTooLarge o.mantissa && floatish col.cells
+
+def stepEnc (xor mant colTok impl : String) : String :=
+  match parseNat? xor, parseOptsMant? mant, parseBCol? colTok with
+  | some x, some m, some col =>
+    let o : Opts := { xor := x == 1, mantissa := m }
+    let model := encModel col o
+    let spec :=
+      if assertDomain col o then "SKIP xor compression with mantissa > 52 (documented assert)"
+      else match impl.splitOn " => " with
+        | [_, client] => judgeBinCol o col client
+        | _ => "BAD encode_column did not return: " ++ impl.take 40
+    let known := match encodeColumn col o with | .ok w => intsId [w] | .error _ => ""
+    withKnown model spec known
+  | _, _, _ => "bad-op\tbad-op"
+
+/-! ### JSON -/
+
+def showJ : JScalar → String
+  | .null => "_"
+  | .int i => s!"i{i}"
+  | .float b => "f" ++ hex16 b
+  | .str s => s
+
+def showJCol : JCol → String
+  | .arr xs => showList showJ xs
+  | .num n => s!"#{n}"
+
+def showJCols (j : JColsResp) : String :=
+  "names:" ++ showList id j.colnames ++ " cols:" ++
+    (if j.cols.isEmpty then "[]" else "|".intercalate ((sortByName j.cols).map fun (n, c) => n ++ "=" ++ showJCol c))
+
+def showJRows (j : JRowsResp) : String :=
+  "names:" ++ showList id j.colnames ++ " rows:" ++
+    (if j.rows.isEmpty then "[]" else ";".intercalate (j.rows.map fun r => if r.isEmpty then "()" else ",".intercalate (r.map showJ)))
+
+def parseJ? (s : String) : Option JScalar :=
+  match s.toList with
+  | ['_'] => some .null
+  | 'i' :: r => (String.ofList r).toInt?.map .int
+  | 'f' :: r => (hexNat? (String.ofList r)).map .float
+  | 'x' :: _ => some (.str s)
+  | _ => none
+
+def parseJCol? (s : String) : Option JCol :=
+  match s.toList with
+  | '#' :: r => (String.ofList r).toNat?.map .num
+  | _ => (parseList parseJ? s).map .arr
+
+/-- `names:<…> cols:<name>=<col>|…`. -/
+def parseJCols? (namesTok colsTok : String) : Option JColsResp := do
+  let (k1, names) ← splitFirst namesTok ":"
+  let (k2, cols) ← splitFirst colsTok ":"
+  if k1 ≠ "names" || k2 ≠ "cols" then none
+  let names ← parseNames? names
+  let cols ← if cols = "[]" then some [] else (cols.splitOn "|").mapM fun e => do
+    let (n, c) ← splitFirst e "="
+    let c ← parseJCol? c
+    pure (n, c)
+  pure { colnames := names, cols := cols }
+
+def parseJRow? (r : String) : Option (List JScalar) :=
+  if r = "()" then some [] else (r.splitOn ",").mapM parseJ?
+
+def parseJRowList? (rows : String) : Option (List (List JScalar)) :=
+  if rows = "[]" then some [] else (rows.splitOn ";").mapM parseJRow?
+
+def parseJRows? (namesTok rowsTok : String) : Option JRowsResp := do
+  let (k1, names) ← splitFirst namesTok ":"
+  let (k2, rows) ← splitFirst rowsTok ":"
+  if k1 ≠ "names" || k2 ≠ "rows" then none
+  let names ← parseNames? names
+  let rows ← parseJRowList? rows
+  pure { colnames := names, rows := rows }
+
+/-- `JsonColsAgree`, decided. -/
+def jsonColsAgreeB (names : List String) (columns : List (String × BCol)) (j : JColsResp) : String :=
+  if j.colnames ≠ names then "BAD colnames differ"
+  else
+    match columns.find? (fun nc => match lookupKV nc.1 j.cols with
+        | some jc => readCol jc != nc.2.cells.map finiteOrNull
+        | none => true) with
+    | some nc => s!"BAD column {nc.1}: " ++ (match lookupKV nc.1 j.cols with
+        | some jc => s!"cells {(showList showVal (readCol jc)).take 80} expected {(showList showVal (nc.2.cells.map finiteOrNull)).take 80}"
+        | none => "missing")
+    | none =>
+      if j.cols.all (fun njc => columns.any (fun nc => nc.1 == njc.1)) then "OK" else "BAD the response has a column the result does not have"
+
+def jsonRowsAgreeB (names : List String) (rows : List (List Val)) (j : JRowsResp) : String :=
+  if j.colnames ≠ names then "BAD colnames differ"
+  else if j.rows.map (fun r => r.map readScalar) == rows.map (fun r => r.map finiteOrNull) then "OK"
+  else "BAD rows differ"
+
+def judgeJCols (names : List String) (columns : List (String × BCol)) (view : List String) : String :=
+  match view with
+  | [n, c] =>
+    match parseJCols? n c with
+    | some j => jsonColsAgreeB names columns j
+    | none => "BAD unparsable response: " ++ (n ++ " " ++ c).take 60
+  | _ => "BAD unexpected response: " ++ (" ".intercalate view).take 60
+
+def stepJCols (namesTok : String) (colToks : List String) (impl : String) : String :=
+  match parseNames? namesTok, parseNamedList? colToks with
+  | some names, some cols =>
+    let model := showJCols (queryOutputToJsonCols names cols)
+    withKnown model (judgeJCols names cols (splitTokens impl)) (dupId cols)
+  | _, _ => "bad-op\tbad-op"
+
+/-! ### status -/
+
+def parseQErr? (s : String) : Option QErr := QErr.all.find? fun e => e.name == s
+
+def stepStatus (v impl : String) : String :=
+  if v = "Ok" then
+    (if okPassesThrough then "200" else "?") ++ "\t" ++ (if impl = "200" then "OK" else "BAD an Ok result was not passed through")
+  else match parseQErr? v with
+  | none => "?\tBAD unknown QueryError variant " ++ v ++ " (the enum changed: regenerate)"
+  | some e =>
+    let spec := match impl.toNat? with
+      | some s => if decide (IsErrorStatus s) then "OK" else s!"BAD status {s} is not an error status"
+      | none => "BAD no status: " ++ impl.take 20
+    s!"{mapErrStatus e}" ++ "\t" ++ spec
+
+/-! ### e2e -/
+
+def parseEndpoint? : String → Option Endpoint
+  | "query" => some .query
+  | "query_cols" => some .query_cols
+  | "mjson" | "mbin" | "mclient" => some .multi_query_cols
+  | _ => none
+
+def showErrResp : Resp → String
+  | .error s => s!"{s}"
+  | .dropped => "dropped"
+  | _ => "?"
+
+/-- A failing query: `<status> next:<status of the next request>`. -/
+def stepErr (ep v impl : String) : String :=
+  match parseEndpoint? ep, parseQErr? v with
+  | some e, some q =>
+    let model := showErrResp (errorOutcome e q) ++ " next:200"
+    let spec := match impl.splitOn " next:" with
+      | [st, nx] =>
+        match st.toNat? with
+        | some s =>
+          if !decide (IsErrorStatus s) then s!"BAD a failing query was answered with status {s}"
+          else if nx ≠ "200" then "BAD the request after a failing query was not answered: " ++ nx
+          else "OK"
+        | none => "BAD a failing query got no HTTP status (" ++ st ++ ")" ++ (if nx = "200" then "" else "; next request: " ++ nx)
+      | _ => "BAD unexpected output"
+    model ++ "\t" ++ spec
+  | _, _ => "bad-op\tbad-op"
+
+def splitBlocks (toks : List String) : List (List String) :=
+  let rec go (cur : List String) (acc : List (List String)) : List String → List (List String)
+    | [] => (cur.reverse :: acc).reverse
+    | t :: ts => if t = ";;" then go [] (cur.reverse :: acc) ts else go (t :: cur) acc ts
+  go [] [] toks
+
+/-- `cols <names> <named>…` → colnames, columns. -/
+def parseBlock? : List String → Option (List String × List (String × BCol))
+  | "cols" :: names :: cols => do
+    let names ← parseNames? names
+    let cols ← parseNamedList? cols
+    pure (names, cols)
+  | _ => none
+
+def stepQueryRows (namesTok rowsTok impl : String) : String :=
+  let rows? : Option (List (List Val)) :=
+    if rowsTok = "[]" then some [] else (rowsTok.splitOn ";").mapM fun r => if r = "()" then some [] else (r.splitOn ",").mapM parseVal?
+  match parseNames? namesTok, rows? with
+  | some names, some rows =>
+    let model := "200 " ++ showJRows (queryRowsJson names rows)
+    let spec := match splitTokens impl with
+      | ["200", n, r] => (match parseJRows? n r with | some j => jsonRowsAgreeB names rows j | none => "BAD unparsable response")
+      | _ => "BAD a successful query was not answered with 200: " ++ impl.take 40
+    model ++ "\t" ++ spec
+  | _, _ => "bad-op\tbad-op"
+
+def stepQueryCols (namesTok : String) (colToks : List String) (impl : String) : String :=
+  match parseNames? namesTok, parseNamedList? colToks with
+  | some names, some cols =>
+    let model := "200 " ++ showJCols (queryOutputToJsonCols names cols)
+    let spec := match splitTokens impl with
+      | "200" :: view => judgeJCols names cols view
+      | _ => "BAD a successful query was not answered with 200: " ++ impl.take 40
+    withKnown model spec (dupId cols)
+  | _, _ => "bad-op\tbad-op"
+
+def firstBad (xs : List String) : String := (xs.find? (· ≠ "OK")).getD "OK"
+
+def stepMJson (blocks : List (List String)) (impl : String) : String :=
+  match blocks.mapM parseBlock? with
+  | none => "bad-op\tbad-op"
+  | some outs =>
+    let model := "200 " ++ " ;; ".intercalate (outs.map fun (n, c) => showJCols (queryOutputToJsonCols n c))
+    let spec := match splitTokens impl with
+      | "200" :: rest =>
+        let views := splitBlocks rest
+        if views.length ≠ outs.length then "BAD number of responses differs from the number of queries"
+        else firstBad ((outs.zip views).map fun ((n, c), v) => judgeJCols n c v)
+      | _ => "BAD a successful request was not answered with 200: " ++ impl.take 40
+    withKnown model spec (firstBad' (outs.map fun (_, c) => dupId c))
+where firstBad' (xs : List String) : String := (xs.find? (· ≠ "")).getD ""
+
+def showBinResp (r : List (String × WCol)) : Option String :=
+  -- every column as the caller of `multi_query` holds it; `none` = a client-side panic
+  let cols := (sortByName r).mapM fun (n, w) =>
+    match deliver w with
+    | .ok c => some (n ++ "=" ++ showW c)
+    | _ => none
+  cols.map fun cs => if cs.isEmpty then "[]" else "|".intercalate cs
+
+def parseBinView? (s : String) : Option (List (String × WCol)) :=
+  if s = "[]" then some [] else (s.splitOn "|").mapM fun e => do
+    let (n, c) ← splitFirst e "="
+    let c ← parseWCol? c
+    pure (n, c)
+
+def judgeBin (eo : EncodingOpts) (cols : List (String × BCol)) (view : List String) : String :=
+  match view with
+  | [v] =>
+    match parseBinView? v with
+    | none => "BAD unparsable response"
+    | some r =>
+      match cols.find? (fun nc => match lookupKV nc.1 r with
+          | some c => (match c.cells with
+              | some ys => !cellsAgree (effMask (optsFor eo nc.1)) ys (specView nc.2)
+              | none => true)
+          | none => true) with
+      | some nc => s!"BAD column {nc.1} differs from the embedded result"
+      | none => if r.all (fun nw => cols.any (fun nc => nc.1 == nw.1)) then "OK" else "BAD the response has a column the result does not have"
+  | _ => "BAD unexpected response"
+
+def stepMBin (xor mant fp : String) (blocks : List (List String)) (impl : String) : String :=
+  match parseNat? xor, parseOptsMant? mant, parseNames? fp, blocks.mapM parseBlock? with
+  | some x, some m, some fp, some outs =>
+    let eo : EncodingOpts := { xor := x == 1, mantissa := m, fullPrecisionCols := fp }
+    let qouts : List QOut := outs.map fun (n, c) => { colnames := n, columns := c, rows := [] }
+    let model := match handleMulti (some eo) (qouts.map .ok) with
+      | .multiBin rs =>
+        (match rs.mapM showBinResp with
+          | some vs => "200 " ++ " ;; ".intercalate vs
+          | none => "200 client-panic")
+      | .dropped => "dropped"
+      | _ => "?"
+    let domainSkip := outs.any fun (_, c) => c.any fun nc => assertDomain nc.2 (optsFor eo nc.1)
+    let spec :=
+      if domainSkip then "SKIP xor compression with mantissa > 52 (documented assert)"
+      else match splitTokens impl with
+      | "200" :: rest =>
+        let views := splitBlocks rest
+        if views.length ≠ outs.length then "BAD the client did not obtain the responses: " ++ impl.take 40
+        else firstBad ((outs.zip views).map fun ((_, c), v) => judgeBin eo c v)
+      | _ => "BAD a successful request was not answered with 200: " ++ impl.take 40
+    let ws : List WCol := match encodeAll eo qouts with
+      | .ok rs => rs.flatMap fun r => r.map (·.2)
+      | .error _ => []
+    let ints := intsId ws
+    let dup := ((outs.map fun (_, c) => dupId c).find? (· ≠ "")).getD ""
+    withKnown model spec (if ints ≠ "" then ints else dup)
+  | _, _, _, _ => "bad-op\tbad-op"
+
+def stepE2E (toks : List String) (impl : String) : String :=
+  match toks with
+  | [ep, "err", v] => stepErr ep v impl
+  | ["query", "rows", names, rows] => stepQueryRows names rows impl
+  | "query_cols" :: "cols" :: names :: cols => stepQueryCols names cols impl
+  | "mjson" :: _k :: rest => stepMJson (splitBlocks rest) impl
+  | "mbin" :: _k :: x :: m :: fp :: rest => stepMBin x m fp (splitBlocks rest) impl
+  | "mclient" :: _k :: x :: m :: fp :: rest => stepMBin x m fp (splitBlocks rest) impl
+  | ["insert"] => "200\t" ++ (if impl = "200" then "OK" else "BAD insert_bin answered " ++ impl)
+  | ["next"] => "next:200\t" ++ (if impl = "next:200" then "OK" else "BAD the request after a panic was not answered: " ++ impl)
+  | ["clientflush"] => "flushed\t" ++ (if impl = "flushed" then "OK" else "BAD the logging client could not deliver its buffer")
+  | ["malformed", _ep] =>
+    "?\t" ++ (match impl.splitOn " next:" with
+      | [st, nx] => (match st.toNat? with
+          | some s => if 400 ≤ s && s < 500 && nx = "200" then "OK" else "BAD malformed request: " ++ impl
+          | none => "BAD malformed request: " ++ impl)
+      | _ => "BAD unexpected output")
+  | [_, emb] =>
+    if emb.startsWith "emb:" then "?\tSKIP the embedded call itself did not return a value (C11/C12)" else "bad-op\tbad-op"
+  | ["start"] => "?\tBAD the server did not start"
+  | _ => "bad-op\tbad-op"
+
+def step (line : String) : String :=
+  let (inp, impl) := splitImpl line
+  match splitTokens inp with
+  | ["enc", x, m, col] => stepEnc x m col impl
+  | "jcols" :: names :: cols => stepJCols names cols impl
+  | ["status", v] => stepStatus v impl
+  | "e2e" :: rest => stepE2E rest impl
+  | _ => "bad-op\tbad-op"
+
+end LM.DrvC17
+
+def main : IO Unit := LM.Proto.runDriver LM.DrvC17.step
